@@ -3,7 +3,8 @@
 proof:          lean/MPilot/Props/C07.lean
 correspondence: the ten arithmetic commands, 1-5 inputs, every int/float mix, lattice with zeros/negatives, weights
 oracles:        exact reference definition + documented element type; every input order gives the same outcome;
-                division by zero gives a missing cell; specific errors for shapes / weight counts / empty lists
+                division by zero gives a missing cell; specific errors for shapes / weight counts / empty lists;
+                the definitions again on grids of 10^5 .. some 10^6 cells (division: nothing missing, zeros in B)
 """
 import itertools
 
@@ -170,6 +171,62 @@ def narrow_floats(ctx):
                             cmd, narrow.__name__, wide.__name__, order, k, v2[k], v1[k]), dict(case.describe(), dtypes=[str(x.dtype) for x in case.inputs]))
 
 
+def at_scale(ctx):
+    """the arithmetic definitions on grids of 10^5 to some 10^6 cells (a body may take another route above some size: raw arrays instead of masked ones when
+    nothing is missing, blocks, in-place accumulation).  Directed: A / B over a ladder of grids in which NOTHING is missing (no mask array at all, or a mask
+    array holding False only - what a reader delivers) and B holds zeros, some beneath a zero of A: a zero divisor gives a missing cell, never an infinity,
+    a NaN or an error, and every other cell is the quotient; then every other command once or twice at scale, integer and floating fields mixed,
+    compared with the definition written in plain numpy (missing cells exactly, values to 1e-9, element type by the documented rule)"""
+    rng = eems._rng2(ctx)
+    seed = rng.randrange(2 ** 31)
+    nr = numpy.random.RandomState(seed)
+
+    def check(cmd, params, ins, shape, forms, dts):
+        st, r = eems.execute_on(cmd, params, ins)
+        ctx.case("at-scale %s %r %r %r %r" % (cmd, shape, forms, [d.__name__ for d in dts], sorted(params.items())), sample=None)
+        ctx.count("c07_at_scale_cases")
+        desc = {"cmd": cmd, "params": {k: repr(v) for k, v in params.items()}, "shape": list(shape), "fields": ["%s %s" % (d.__name__, f) for d, f in zip(dts, forms)],
+                "values": "quarters between -2 and 2 / whole numbers between -3 and 3, zeros among them; numpy.random.RandomState(%d); forms: mask = masked array with missing cells, "
+                          "nomask = masked array without a mask array, falsemask = masked array whose mask array holds False only" % seed,
+                "first_cells": [repr(numpy.ma.getdata(a).ravel()[:6].tolist()) for a in ins]}
+        if st != "ok":
+            ctx.fail("%s on %d field(s) of %d cells fails with %s: %s" % (cmd, len(ins), ins[0].size, type(r).__name__, str(r)[:80]), desc)
+            return
+        ref = numeric.np_reference(cmd, params, ins)
+        d = numeric.field_differs(r, ref) if ref is not None else None
+        if d:
+            ctx.fail("%s on %d field(s) of %d cells (%s): %s" % (cmd, len(ins), ins[0].size, ", ".join(desc["fields"]), d), desc)
+            return
+        want = reference.arith_dtype(cmd, params, ["i" if a.dtype.kind in "iu" else "f" for a in ins])
+        if ("i" if r.dtype.kind in "iu" else "f") != want:
+            ctx.fail("%s on fields of %d cells: result element type %s, expected %s for inputs %r" % (cmd, ins[0].size, r.dtype, want, [str(a.dtype) for a in ins]), desc)
+
+    # the division ladder
+    ladder = [((70000,), 3), ((1, 270000), 3), ((600, 500), 2), ((1100, 1000), 2), ((3, 1000, 1000), 1)]
+    if ctx.thorough:
+        ladder.append(((2600, 2000), 2))
+    combos = [(float, float), (int, int), (int, float), (float, int)]
+    for j, (shape, ncombo) in enumerate(ladder):
+        for form in ("nomask", "falsemask"):
+            for dts in [combos[(j + k) % 4] for k in range(ncombo)]:
+                a = eems.big_field(nr, shape, form, 8 if dts[0] is float else 3, dts[0], zeros=0.02)
+                form_b = form if rng.random() < 0.7 else ("nomask" if form == "falsemask" else "falsemask")
+                b = eems.big_field(nr, shape, form_b, 8 if dts[1] is float else 3, dts[1], zeros=0.01)
+                check("ADividedByB", {}, [a, b], shape, (form, form_b), dts)
+    # every command at scale
+    for shape in ((500, 600), (1200, 1000)):
+        for form in ("mask", "nomask"):
+            for cmd in eems.ARITH:
+                how = eems.COMMANDS[cmd][1]
+                n = 1 if how == "one" else 2 if how == "ab" else 3
+                dts = [rng.choice([int, float]) for _ in range(n)]
+                ins = [eems.big_field(nr, shape, form, 8 if dt is float else 3, dt, zeros=0.02) for dt in dts]
+                params = {"Weights": [rng.choice([1, 2, 0.5, -1, 3, 0.25]) for _ in range(n)]} if "Weighted" in cmd else {}
+                if cmd == "WeightedMean" and sum(params["Weights"]) == 0:
+                    params["Weights"][0] += 1
+                check(cmd, params, ins, shape, (form,) * n, dts)
+
+
 def run(ctx):
     ctx.check_proofs(["MPilot.Props.C07"])
     model = common.Model()
@@ -183,6 +240,7 @@ def run(ctx):
     errors(ctx)
     unsigned(ctx)
     narrow_floats(ctx)
+    at_scale(ctx)
     numeric.focus_search(ctx, model, lambda cmds, f: gen_random(ctx, cmds, 20 * f, "valid"), orc)
     return ctx.finish(
         rule="(a) every int/float mix of 1..3 (thorough: 5) inputs per command; (b) random 1-5 input cases over the lattice "
